@@ -14,5 +14,24 @@ OV=$VERIF_ROOT/.work/ov-cons
 rm -rf "$OV" && mkdir -p "$OV"
 PKGS=$(cd $REPO && go list ./x/... ./app/... ./types/... ./utils/... ./crypto/... ./ethereum/... | grep -v -e '/client/cli$' -e '/types/tests$' -e '/upgrades/v13_sample$' | tr '\n' ' ')
 [ -n "$PKGS" ] || { echo "HARNESS: go list of /repo failed" >&2; exit 2; }
-$VERIF_ROOT/bin/instr -repo "$REPO" -out "$OV" -profile consensus $PKGS >"$OV/instr.log" 2>&1 || { cat "$OV/instr.log" >&2; exit 2; }
-go build -tags verif -overlay "$OV/overlay.json" -o $VERIF_ROOT/bin/vcheck-i ./cmd/vcheck || exit 2
+# statement-level points (vrt.Point) in the files that set up and run one EVM message: the concurrent-request pass of C01 serves
+# a request at every one of them
+POINTS='/x/evm/keeper/(state_transition[a-z_]*|msg_server|config|keeper)\.go$|/x/evm/vm/state_db[a-z_]*\.go$|/x/cpc/keeper/(keeper|precompiles)\.go$'
+$VERIF_ROOT/bin/instr -repo "$REPO" -out "$OV" -profile consensus -points "$POINTS" $PKGS >"$OV/instr.log" 2>&1 || { cat "$OV/instr.log" >&2; exit 2; }
+# the go-ethereum fork (module cache, go1.17) iterates the map of custom precompiled contracts: own that iteration too.
+# The replacement is hand-written for one exact file; if the fork's file is not that file the site stays unowned (reported by C01).
+FORK_DIR=$(cd $REPO && go list -m -f '{{.Dir}}' github.com/ethereum/go-ethereum 2>/dev/null)
+FORK_FILE="$FORK_DIR/core/vm/evm_evermint.go"
+if [ -f "$FORK_FILE" ] && [ "$(sha256sum "$FORK_FILE" | cut -d' ' -f1)" = "00899c6929ef4774877c4943fa5baf5f19298df708c1794e2aedf07b1ae3a9e0" ]; then
+  mkdir -p "$OV/fork" && cp overlays/geth_core_vm_evm_evermint.go.txt "$OV/fork/evm_evermint.go"
+  python3 - "$OV/overlay.json" "$FORK_FILE" "$OV/fork/evm_evermint.go" <<'PY' || exit 2
+import json, sys
+ov = json.load(open(sys.argv[1]))
+ov["Replace"][sys.argv[2]] = sys.argv[3]
+json.dump(ov, open(sys.argv[1], "w"), indent=1)
+PY
+else
+  echo "build_vcheck_i: go-ethereum fork file $FORK_FILE is not the version the hand-written overlay was made for; its map iteration stays unowned" >&2
+fi
+# goindex=0: the go command's module index ignores overlays of module-cache files
+GODEBUG=goindex=0 go build -tags verif -overlay "$OV/overlay.json" -o $VERIF_ROOT/bin/vcheck-i ./cmd/vcheck || exit 2
